@@ -48,6 +48,13 @@ Definition returns {A} (Q : A -> Prop) (r : res A) : Prop := exists a, r = Val a
 Definition l32 (t : Z * Z * Z * Z * Z * Z * Z * Z * Z * Z * Z * Z * Z * Z * Z * Z * Z * Z * Z * Z * Z * Z * Z * Z * Z * Z * Z * Z * Z * Z * Z * Z) : list Z :=
   let '(r0, r1, r2, r3, r4, r5, r6, r7, r8, r9, r10, r11, r12, r13, r14, r15, r16, r17, r18, r19, r20, r21, r22, r23, r24, r25, r26, r27, r28, r29, r30, r31) := t in [r0; r1; r2; r3; r4; r5; r6; r7; r8; r9; r10; r11; r12; r13; r14; r15; r16; r17; r18; r19; r20; r21; r22; r23; r24; r25; r26; r27; r28; r29; r30; r31].
 
+(* what Mul / Sqr leave: every limb reduced except limb 2, which may exceed 2^26 - 1 by at most 2^18 *)
+Definition mul_out (r : limbs) : Prop :=
+  let '(r0, r1, r2, r3, r4, r5, r6, r7, r8, r9) := r in
+  (0 <= r0 <= 67108863) /\ (0 <= r1 <= 67108863) /\ (0 <= r2 <= 67371008) /\ (0 <= r3 <= 67108863) /\
+  (0 <= r4 <= 67108863) /\ (0 <= r5 <= 67108863) /\ (0 <= r6 <= 67108863) /\ (0 <= r7 <= 67108863) /\
+  (0 <= r8 <= 67108863) /\ (0 <= r9 <= 4194303).
+
 (* what Normalize returns for a Field standing for V *)
 Definition norm_post (V : Z) (l : limbs) : Prop := canon l /\ val l = V mod p.
 
